@@ -656,11 +656,57 @@ var c11SentinelFeature = gts.Feature{Key: "SENTINEL", Loc: gts.Point(999)}
 
 func c11FeatureList(ff []gts.Feature) string { return c11EncTable(ff) }
 
-// sorted table of n features inside [0, L]
+// c11SourceBias: every table starts with a multi-part partial `source` feature and the programs
+// are made of Slice calls (the one call site of asComplete).
+var c11SourceBias = false
+
+// sorted table of n features inside [0, L].  Biased towards what the aliasing hazards need:
+// `source` features with multi-part partial locations (the only ones asComplete rewrites), and
+// features that carry the SAME location / qualifier encoding (shared Joined/Ordered slices and
+// Props rows when the world is built with share = 1).
 func (r *Run) c11Table(n, L, depth int) []gts.Feature {
-	var ff gts.FeatureSlice
+	g := r.rng
+	if c11SourceBias && n == 0 {
+		n = 1
+	}
+	fs := make([]gts.Feature, 0, n)
 	for i := 0; i < n; i++ {
-		ff = ff.Insert(genFeature(r.rng, L, depth))
+		f := genFeature(g, L, depth)
+		k := g.intn(6)
+		if c11SourceBias && i == 0 {
+			k = 0
+		}
+		switch k {
+		case 0:
+			parts := genParts(g, 0, L, 3, false)
+			if c11SourceBias {
+				for j, p := range parts {
+					if rg, ok := p.(gts.Ranged); ok && g.intn(3) > 0 {
+						rg.Partial = partials[1+g.intn(3)]
+						parts[j] = rg
+					}
+				}
+			}
+			f = gts.Feature{Key: "source", Props: genProps(g)}
+			if g.bool() {
+				f.Loc = gts.Joined(parts)
+			} else {
+				f.Loc = gts.Ordered(parts)
+			}
+		case 1, 2:
+			if len(fs) > 0 {
+				o := fs[g.intn(len(fs))]
+				f.Loc = o.Loc
+				if g.bool() {
+					f.Props = o.Props
+				}
+			}
+		}
+		fs = append(fs, f)
+	}
+	var ff gts.FeatureSlice
+	for _, f := range fs {
+		ff = ff.Insert(f)
 	}
 	return ff
 }
@@ -879,6 +925,10 @@ func (r *Run) c11Programs(gb bool, rounds int) {
 		ops := make([]string, nops)
 		for i := range ops {
 			ops[i] = r.c11GenOp(wt, k, modelled)
+			if c11SourceBias && r.rng.intn(4) > 0 {
+				L := wt.lens[k]
+				ops[i] = fmt.Sprintf("(slice %d %d)", r.rng.rangeInt(-L, L), r.rng.rangeInt(-L, L))
+			}
 		}
 		if nops >= 2 && r.rng.intn(4) == 0 {
 			ops[nops-1] = ops[0] // the same operation twice
@@ -1098,6 +1148,10 @@ func propC11(r *Run) {
 	}
 	r.c11Programs(false, rounds)
 	r.c11Programs(true, rounds/3)
+	c11SourceBias = true
+	r.c11Programs(false, rounds/4)
+	r.c11Programs(true, rounds/8)
+	c11SourceBias = false
 	r.c11Locations()
 	r.c11Origins()
 	r.c11PropsSharing()
